@@ -247,9 +247,11 @@ def check(ctx):
         # the consequence the statement draws ("viewing the array as a slice or native array never touches .. memory outside the array"): the
         # slice views rest on the layout, and their extents are the shared rules C02.V (views of one array: exactly N elements from its address)
         # and C10.F (one or several arrays viewed as a flat slice: exactly len * N elements)
-        from ..rules import check_views
+        from ..rules import check_views, check_derived_views
         from . import c10
         check_views(ctx, cfg)
+        # .. and every other reference the crate manufactures into an array it was handed stays inside it (sweep, C01.V)
+        check_derived_views(ctx, cfg)
         for f in ("slice_from_chunks", "slice_from_chunks_mut"):
             c10.check_flatten(ctx, cfg, c10.K + f)
         # and the converse reinterpretation that rests on the same layout: a slice viewed as arrays plus a remainder stays inside the slice (C10.C)
